@@ -22,8 +22,30 @@ def _var_or_field(e, name):
     return name in expr_vars(e) or name in expr_fields(e)
 
 
+def _const_value(fv, rv, depth=2):
+    """Constant assigned by a statement: 0 / 1 for a bool, the variant name for a fieldless enum value (written directly or through
+    one temporary)."""
+    if rv["r"] == "use" and "k" in rv["o"]:
+        k = rv["o"]["k"]
+        if k.get("variant"):
+            return k["variant"]
+        if k.get("v") in (0, 1) and "bool" in str(k.get("ty", "bool")):
+            return k["v"]
+        return None
+    if rv["r"] == "agg" and rv.get("k") == "adt" and not rv.get("fields"):
+        return rv.get("v")
+    if rv["r"] == "use":
+        q = rv["o"].get("c") or rv["o"].get("m")
+        if q is not None and not q.get("p") and depth > 0:
+            vs = {_const_value(fv, st["rv"], depth - 1) for bi, si, st in fv.defs().get(q["l"], []) if bi in fv.live and si != "t"}
+            if len(vs) == 1:
+                return vs.pop()
+    return None
+
+
 def _phase_flag(prog, fv, brs):
-    """Name of the bool place assigned `true` under `match msg { EndOfData .. }` and `false` under CacheReset."""
+    """(name, incremental value, snapshot value) of the place assigned one constant under `match msg { EndOfData .. }` and another
+    under CacheReset: a bool (true / false) or a two-variant enum."""
     sets = {"EndOfData": {}, "CacheReset": {}}
     for bi in sorted(fv.live):
         arm = None
@@ -34,16 +56,22 @@ def _phase_flag(prog, fv, brs):
             continue
         for st in fv.blocks[bi]["s"]:
             rv = st.get("rv")
-            if rv and rv["r"] == "use" and "k" in rv["o"] and rv["o"]["k"].get("v") in (0, 1) and "bool" in str(rv["o"]["k"].get("ty", "bool")):
-                nm = None
-                for e in reversed(st["p"].get("p") or []):
-                    if isinstance(e, dict) and e.get("n"):
-                        nm = e["n"]
-                        break
-                nm = nm or fv.local_name.get(st["p"]["l"])
-                if nm:
-                    sets[arm].setdefault(nm, set()).add(rv["o"]["k"]["v"])
-    cands = [n for n, vs in sets["EndOfData"].items() if vs == {1} and sets["CacheReset"].get(n) == {0}]
+            if not rv:
+                continue
+            v = _const_value(fv, rv)
+            if v is None:
+                continue
+            nm = None
+            for e in reversed(st["p"].get("p") or []):
+                if isinstance(e, dict) and e.get("n"):
+                    nm = e["n"]
+                    break
+            nm = nm or fv.local_name.get(st["p"]["l"])
+            if nm:
+                sets[arm].setdefault(nm, set()).add(v)
+    cands = [(n, next(iter(vs)), next(iter(sets["CacheReset"][n]))) for n, vs in sets["EndOfData"].items()
+             if len(vs) == 1 and len(sets["CacheReset"].get(n, ())) == 1 and vs != sets["CacheReset"][n]]
+    cands = [c for c in cands if (c[1], c[2]) == (1, 0) or (isinstance(c[1], str) and isinstance(c[2], str))]
     return cands[0] if len(cands) == 1 else None
 
 
@@ -67,12 +95,24 @@ def run(prog, rep, tier):
 
     # the phase flag is whatever bool is set under the End-of-Data arm and cleared under the Cache-Reset arm (its name is the
     # maintainer's business)
-    flag = _phase_flag(prog, fv, brs) or "end_of_data"
+    flag, inc_v, snap_v = _phase_flag(prog, fv, brs) or ("end_of_data", 1, 0)
+    brs_n = branches(fv, Renderer(fv, depth=12, through_names=True))
 
     def phase(bi):
         for g, labels, how in flat_guards(fv, bi, brs):
-            if _var_or_field(g, flag) and labels <= {"true", "false"} and g[0] in ("var", "field", "deref"):
+            if inc_v == 1 and _var_or_field(g, flag) and labels <= {"true", "false"} and g[0] in ("var", "field", "deref"):
                 return "incremental" if labels == {"true"} else "snapshot"
+        if isinstance(inc_v, str):
+            # an enum-valued phase: `match phase {..}` or `phase == Phase::X` (a derived PartialEq compares the discriminants)
+            for g, labels, how in flat_guards(fv, bi, brs_n):
+                if g[0] == "discr" and _var_or_field(g, flag) and len(labels) == 1 and next(iter(labels)) in (inc_v, snap_v):
+                    return "incremental" if next(iter(labels)) == inc_v else "snapshot"
+                if g[0] == "bin" and g[1] in ("Eq", "Ne") and _var_or_field(g, flag) and labels <= {"true", "false"} and len(labels) == 1:
+                    cv = [x[3] for x in walk(g) if isinstance(x, tuple) and x and x[0] == "const" and len(x) > 3 and x[3] in (inc_v, snap_v)]
+                    if len(cv) == 1:
+                        same = (g[1] == "Eq") == (labels == {"true"})
+                        v_ = cv[0] if same else (snap_v if cv[0] == inc_v else inc_v)
+                        return "incremental" if v_ == inc_v else "snapshot"
         return None
     n = 0
     for name, want, what in (("rpki_reset", "snapshot", "installing the snapshot buffer (drop all + insert snapshot)"),
@@ -136,7 +176,7 @@ def run(prog, rep, tier):
                         if rv and rv["r"] == "use" and (rv["o"].get("k") or {}).get("variant") == "ResetQuery":
                             ok_send = True        # `&Message::ResetQuery` is a promoted constant
                         if "rv" in s and (s["p"].get("p") and any(isinstance(e, dict) and e.get("n") == flag for e in s["p"]["p"]) or fv.local_name.get(s["p"]["l"]) == flag):
-                            if rv["r"] == "use" and rv["o"].get("k", {}).get("v") == 0:
+                            if _const_value(fv, rv) == snap_v:
                                 ok_phase = True
             if ok_send and ok_phase:
                 r2.ok("CacheReset arm sends ResetQuery and returns to the snapshot phase")
